@@ -2,6 +2,7 @@ package props
 
 import (
 	"fmt"
+	"os"
 	"sort"
 	"strings"
 
@@ -16,7 +17,13 @@ type C08Case struct {
 	List []model.Entry `json:"list"`
 	// Override: a format that has an (unrelated) override block, which makes Config.Get filter the contents
 	Override string `json:"override,omitempty"`
+	// Umask: the top-level umask setting (0 = unset). Ghost entries keep their default mode 0644 whatever it is.
+	Umask int `json:"umask,omitempty"`
 }
+
+// c08Names: destination names with a blank, '#', a backslash, non-ASCII bytes, a glob character and a leading dot.
+var c08Names = []string{"my app.conf", "a#b.conf", "back\\slash.conf", "caf\u00e9.conf", "st[a]r*.conf", ".hidden", "tab\tx.conf", "percent%41.conf", "semi;colon", "quote'\"q"}
+
 
 var c08Types = []string{"", "file", "config", "config|noreplace", "config|missingok", "dir", "symlink", "tree", "ghost", "doc", "licence", "license", "readme"}
 
@@ -111,6 +118,26 @@ func init() {
 					}
 				}
 			}
+			// the umask setting must not reach ghost defaults or the typing of anything else
+			for _, um := range []int{0o002, 0o027, 0o077, 0o777} {
+				for _, typ := range c08Types {
+					for _, info := range []bool{false, true} {
+						if !yield(C08Case{Part: "umask", Umask: um, List: []model.Entry{c08Entry(typ, "", 1, info), c08Entry("", "", 2, false)}}) {
+							return
+						}
+					}
+				}
+			}
+			// configuration files (and the rpm-only kinds) whose names need care in some metadata syntax
+			for _, name := range c08Names {
+				for _, typ := range []string{"config", "config|noreplace", "config|missingok", "ghost", "doc", ""} {
+					e := c08Entry(typ, "", 1, false)
+					e.Dst = "/etc/c08 names/" + name
+					if !yield(C08Case{Part: "names", List: []model.Entry{e, c08Entry("config", "", 2, false)}}) {
+						return
+					}
+				}
+			}
 			{
 				for _, a := range c08Types {
 					for _, ta := range tags {
@@ -134,6 +161,9 @@ func checkC08(env *engine.Env, ci any) engine.Outcome {
 	t := tree(env)
 	var out engine.Outcome
 	set := Setting{Name: "default"}
+	if c.Umask != 0 {
+		set = Setting{Name: fmt.Sprintf("umask=%#o", c.Umask), Umask: os.FileMode(c.Umask)}
+	}
 	doc := set.doc(c.List, t.Root)
 	if c.Override != "" {
 		doc["overrides"] = map[string]any{c.Override: map[string]any{"depends": []any{"only-for-" + c.Override}}}
